@@ -194,6 +194,39 @@ theorem centreInside_repaired {ρ : K → K} (hρ : IsSqrt ρ) (c : K × K) (r :
 
 end disk
 
+/-! ## a disk built from a spherical centre and a Fubini–Study radius -/
+
+section fs
+variable {F : Type*} [Field F]
+
+/-- under the QR contract (`q` orthogonal, `q0 * r00 = centre`, so `r00 = ±1` for a unit centre)
+and `c2² + s2² = 1`, each of the three boundary points of the `"fs"` constructor lies on the unit
+sphere at spherical angle `2·rad` from the centre (`⟨p, centre⟩ = cos(2 rad)`), i.e. at
+Fubini–Study distance `rad`: the disk reports the requested centre and radius -/
+theorem fs_disk_boundary (q0 q1 q2 ctr : V3 F) (r00 c2 s2 : F)
+    (h00 : dot3 q0 q0 = 1) (h11 : dot3 q1 q1 = 1) (h22 : dot3 q2 q2 = 1)
+    (h01 : dot3 q0 q1 = 0) (h02 : dot3 q0 q2 = 0) (h12 : dot3 q1 q2 = 0)
+    (hr : r00 * r00 = 1) (hc : ctr = (r00 * q0.1, r00 * q0.2.1, r00 * q0.2.2))
+    (hcs : c2 * c2 + s2 * s2 = 1) :
+    let b := fsBoundary q0 q1 q2 r00 c2 s2
+    (dot3 b.1 b.1 = 1 ∧ dot3 b.1 ctr = c2) ∧ (dot3 b.2.1 b.2.1 = 1 ∧ dot3 b.2.1 ctr = c2) ∧
+    (dot3 b.2.2 b.2.2 = 1 ∧ dot3 b.2.2 ctr = c2) := by
+  subst hc
+  unfold dot3 at *
+  simp only [fsBoundary, fsPoint]
+  refine ⟨⟨?_, ?_⟩, ⟨?_, ?_⟩, ⟨?_, ?_⟩⟩
+  · linear_combination (r00 * r00 * c2 * c2) * h00 + (r00 * r00 * s2 * s2) * h11
+      + (2 * r00 * r00 * c2 * s2) * h01 + (c2 * c2 + s2 * s2) * hr + hcs
+  · linear_combination (r00 * r00 * c2) * h00 + (r00 * r00 * s2) * h01 + c2 * hr
+  · linear_combination (r00 * r00 * c2 * c2) * h00 + (r00 * r00 * s2 * s2) * h11
+      - (2 * r00 * r00 * c2 * s2) * h01 + (c2 * c2 + s2 * s2) * hr + hcs
+  · linear_combination (r00 * r00 * c2) * h00 - (r00 * r00 * s2) * h01 + c2 * hr
+  · linear_combination (r00 * r00 * c2 * c2) * h00 + (r00 * r00 * s2 * s2) * h22
+      + (2 * r00 * r00 * c2 * s2) * h02 + (c2 * c2 + s2 * s2) * hr + hcs
+  · linear_combination (r00 * r00 * c2) * h00 + (r00 * r00 * s2) * h02 + c2 * hr
+
+end fs
+
 /-! ## Möbius maps, cross-ratio, inversion in the boundary circle -/
 
 section mobius
